@@ -121,6 +121,7 @@ func (p *StreamPool) Dump() {
 }
 
 func (p *StreamPool) remove(conn *connection) {
+	verifYield("pool.remove", conn)
 	p.mu.Lock()
 	if _, ok := p.conns[conn.key]; ok {
 		delete(p.conns, conn.key)
@@ -147,6 +148,7 @@ func (p *StreamPool) connections() []*connection {
 		conns = append(conns, conn)
 	}
 	p.mu.RUnlock()
+	verifOrderConns(conns)
 	return conns
 }
 
@@ -162,6 +164,7 @@ func (p *StreamPool) newConnection(k key, s Stream, ts time.Time) (c *connection
 	}
 	index := len(p.free) - 1
 	c, p.free = p.free[index], p.free[:index]
+	verifYield("pool.new", c)
 	c.reset(k, s, ts)
 	return c, &c.c2s, &c.s2c
 }
@@ -189,6 +192,7 @@ func (p *StreamPool) getConnection(k key, end bool, ts time.Time, tcp *layers.TC
 	if end || conn != nil {
 		return conn, half, rev
 	}
+	verifYield("pool.miss", nil)
 	s := p.factory.New(k[0], k[1], tcp, ac)
 	if s == nil {
 		return nil, nil, nil
